@@ -182,6 +182,55 @@ func classTar(err error) string {
 	return "other:" + strings.ReplaceAll(s, " ", "_")
 }
 
+func classZip(err error) string {
+	s := err.Error()
+	switch {
+	case errors.Is(err, errInjected):
+		return "read:injected"
+	case strings.Contains(s, "invalid tarzip"):
+		return "invalid-tarzip"
+	case strings.Contains(s, "seek backwards"):
+		return "backwards"
+	case errors.Is(err, io.ErrUnexpectedEOF):
+		return "tar:unexpected-eof"
+	case errors.Is(err, tar.ErrHeader):
+		return "tar:header"
+	case errors.Is(err, io.EOF):
+		return "eof"
+	}
+	return "other:" + strings.ReplaceAll(s, " ", "_")
+}
+
+// runZipTar: the real zipslicer.ReadZipTar on the reader, then the scripted ReadAt calls (len@off;…) on the
+// streamReaderAt it built (hook Directory.VerifReaderAt)
+func runZipTar(script string, r io.Reader) string {
+	dir, err := zipslicer.ReadZipTar(r)
+	if err != nil {
+		return "err " + classZip(err)
+	}
+	ra := dir.VerifReaderAt()
+	out := []string{fmt.Sprintf("cd=%d", dir.Size-dir.DirLoc), fmt.Sprintf("size=%d", dir.Size)}
+	if script != "-" {
+		for _, p := range strings.Split(script, ";") {
+			q := strings.SplitN(p, "@", 2)
+			n, off := hx.Atoi(q[0]), hx.Atoi(q[1])
+			buf := make([]byte, n)
+			m, err := ra.ReadAt(buf, off)
+			e := "-"
+			if err != nil {
+				e = classZip(err)
+			}
+			out = append(out, hx.Hex(buf[:m])+":"+e)
+			if strings.HasPrefix(e, "read:") {
+				// a consumer stops at a transport error; what later calls report (io.EOF or the error again) depends on
+				// whether the error arrived with the member's last byte (zipTarReader keeps tr on a non-EOF error)
+				break
+			}
+		}
+	}
+	return "ok " + strings.Join(out, "|")
+}
+
 // runDeb: signdeb.Sign; the clear-signed document is parsed back into the per-member lines
 func runDeb(role string, r io.Reader) string {
 	ent := sg.Cert("rsa").PgpKey
@@ -280,6 +329,8 @@ func runDigester(dg, arg string, r io.Reader) (res string) {
 		return fmt.Sprintf("ok %d %d slots=%s", lim, n, hx.Hex(slots))
 	case "deb":
 		return runDeb(arg, r)
+	case "ziptar":
+		return runZipTar(arg, r)
 	case "ps":
 		d, err := authenticode.DigestPowershell(r, authenticode.PsSigStyle(hx.Atoi(arg)), crypto.SHA256)
 		if err != nil {
@@ -326,6 +377,14 @@ func implRun(f []string) string {
 	ref := runDigester(f[0], f[1], &Scripted{chunks: one, term: term})
 	if got == ref {
 		return got + " split=same"
+	}
+	// signdeb.Sign reports the error of its control-tarball parser (outside the reader program) as soon as that member has
+	// been copied; which of two failures is reported first is not a digest: two refusals of which one is the parser's count as same
+	if f[0] == "deb" && strings.HasPrefix(got, "err ") && strings.HasPrefix(ref, "err ") {
+		ctl := func(s string) bool { return strings.HasPrefix(s, "err control:") || s == "err eof" }
+		if ctl(got) || ctl(ref) {
+			return got + " split=same"
+		}
 	}
 	return got + " split=DIFF:" + strings.SplitN(ref, " ", 2)[0]
 }
@@ -698,6 +757,14 @@ func implE2E(f []string, tmp string) string {
 	if err != nil {
 		if sched == "full" {
 			return "err sign " + strings.ReplaceAll(err.Error(), " ", "_")
+		}
+		// a refusal is fine when the unfragmented stream is refused the same way
+		if t2, e2 := mod.GetTransform(infile, opts); e2 == nil {
+			if st2, e3 := t2.GetReader(); e3 == nil {
+				if _, e4 := mod.Sign(st2, cert, opts); e4 != nil && e4.Error() == err.Error() {
+					return "ok same"
+				}
+			}
 		}
 		return "ok DIFF sign:" + strings.ReplaceAll(err.Error(), " ", "_")
 	}
